@@ -122,16 +122,16 @@ def run(S):
     ident = lambda A: dict(centre=slice(None), xlow=slice(None), ylow=slice(None))
     if by[base["label"]]["ok"]:
         A = by[base["label"]]["data"]
-        pair(base["label"], mirr["label"], "midplane reflection, lower<->upper options exchanged: reflected grid with y reversed", ymap=rev_map(A), tol_pos=1e-8, tol_rel=1e-8, guard_factor=1e7)
+        pair(base["label"], mirr["label"], "midplane reflection, lower<->upper options exchanged: reflected grid with y reversed", ymap=rev_map(A), tol_pos=1e-8, tol_rel=1e-8, guard_factor=1.0)
         pair(base["label"], neg["label"], "psi -> -psi: same positions, signs only", ymap=ident(A), tol_pos=2e-7, tol_rel=2e-6, zsign=1.0, psisign=-1.0)
         pair(base["label"], twopi["label"], "psi_divide_twopi: same positions, psi and Bp scaled by 1/2pi", ymap=ident(A), tol_pos=5e-6, tol_rel=5e-5, zsign=1.0, scale_psi=1.0 / (2 * np.pi), skip=("Bxy", "g33", "g_22"))
     if S.tier == "thorough" and by.get("udn-asym", {}).get("ok"):
         A = by["udn-asym"]["data"]
         k = int(np.array(A["file"]["ny_inner"])) + 2 * A["meta"]["myg"]
         m = rev_map(A, halves=k)
-        pair("udn-asym", "udn-asym-mirrored(LDN)", "upper disconnected double null <-> its mirror image (lower DN)", ymap=m, tol_pos=1e-7, tol_rel=1e-7, guard_factor=1e5)
+        pair("udn-asym", "udn-asym-mirrored(LDN)", "upper disconnected double null <-> its mirror image (lower DN)", ymap=m, tol_pos=1e-7, tol_rel=1e-7, guard_factor=1.0)
     S.bounded.append(dict(name="mirror images and field reversals: complete grids compared cell to cell", evaluations=n_eval, distinct_nontrivial=max(2, len(rows)),
-                          rule="LSN with unequal per-leg ny and its midplane mirror image with lower/upper options exchanged (R equal, Z negated, psixy/hy/|Bp|/B/metric magnitudes equal, y reversed); psi -> -psi; psi_divide_twopi; thorough: UDN vs mirrored; boundary guard cells (extrapolated beyond the targets, direction dependent: observed 1e-4..3e-3) are compared at 1e-1 (gross errors only), domain cells at 1e-8; absolute psi tolerances make psi_divide_twopi positions agree to 5e-6 only; the ylow location is compared through the face shared with the mirrored cell only at centre/xlow resolution; distinct = grid pairs",
+                          rule="LSN with unequal per-leg ny and its midplane mirror image with lower/upper options exchanged (R equal, Z negated, psixy/hy/|Bp|/B/metric magnitudes equal, y reversed); psi -> -psi; psi_divide_twopi; thorough: UDN vs mirrored; boundary guard cells are compared at the same 1e-8 as domain cells (before the repair F18 they differed by 1e-4..3e-3); absolute psi tolerances make psi_divide_twopi positions agree to 5e-6 only; the ylow location is compared through the face shared with the mirrored cell only at centre/xlow resolution; distinct = grid pairs",
                           bound="%d grids" % len(cfgs), samples=rows, failures=bad[:6], generation_refused=refused, wall_s=round(time.time() - t0, 1)))  # fmt: skip
     for r_ in refused:
         S.undecided.append("reference configuration %s does not generate: %s" % (r_["cfg"], r_["error"][:100]))
